@@ -628,3 +628,13 @@ Definition load_bytes (H : bytes -> bytes) (s : bytes) : option (lres download) 
   | Ok (v, fl) _ => Some (load H v fl)
   | _ => None
   end.
+
+(* every integer in the tree is an int64_t (what a torrent::Object can hold; hypothesis of the
+   piece-count theorem for single-file torrents) *)
+Fixpoint int64_ok (v : value) : bool :=
+  match v with
+  | VInt z => in_int64 z
+  | VStr _ => true
+  | VList l => forallb int64_ok l
+  | VMap m => forallb (fun kv => int64_ok (snd kv)) m
+  end.
